@@ -54,7 +54,7 @@ def warm():
     wd = workdir("c16-warm")
     for f in ("T3", "T4", "G3"):
         mc(wd, f)
-    for f in ("T3", "T4", "G3", "G4"):
+    for f in ("T3", "T4", "T5", "G3", "G4"):
         gen(wd, f)
 
 
@@ -82,10 +82,9 @@ def run(tier: str) -> int:
     out = Outcome(PID, tier)
     wd = workdir(PID)
     mcs = [mc(wd, f)[0] for f in (("T3", "T4", "G3") if tier == "quick" else ("T3", "T4", "G3", "G4"))]
-    gens = {f: gen(wd, f)[0] for f in ("T3", "T4", "G3", "G4")}
+    gens = {f: gen(wd, f)[0] for f in ("T3", "T4", "T5", "G3", "G4")}
     gens["T5r"] = gen(wd, "T5r", rnd_seed=160 + seed(), rndk=10 if tier == "quick" else 40)[0]
     if tier == "thorough":
-        gens["T5"] = gen(wd, "T5")[0]
         gens["T6r"] = gen(wd, "T6r", rnd_seed=161 + seed(), rndk=30)[0]
     total_calls = 0
     n_recs = 0
@@ -109,8 +108,8 @@ def run(tier: str) -> int:
         "traces_validated_against_impl": total_calls,
         "inputs": n_recs,
         "distinct_nontrivial": sum(1 for f in gens for r in gens[f]["recs"] if r["lat"] and r["proj"]["b"]),
-        "rule": "one record = a tagged DAG (all with <= 4 nodes, every subset latent; seeded 5-node; thorough: all 5-node, seeded "
-                "6-node) or an ADMG with extra latent nodes (all 3-node, all ordered 4-node), with the latent projection TLC "
+        "rule": "one record = a tagged DAG (all with <= 5 topologically numbered nodes, every subset latent; seeded 5-node with "
+                "other numberings; thorough: seeded 6-node) or an ADMG with extra latent nodes (all 3-node, all ordered 4-node), with the latent projection TLC "
                 "computed by its path definition; simplify_latent_dag (2 insertion orders; observed nodes kept, idempotent, "
                 "read-off ADMG = projection), evans_simplify(G, latents=L) and the ADMG -> LV-DAG -> ADMG round trip (3 insertion "
                 "orders) are replayed; non-trivial = latent present and projection has a bidirected edge",
